@@ -206,11 +206,14 @@ pub struct ClientCfg {
 	/// WebSocket pings every 100 s of the paused clock; the inactivity limit (measured by the client with the real
 	/// clock) is far out of reach
 	pub ping: bool,
+	/// finish the builder with `.set_rpc_middleware(RpcServiceBuilder::new())` (an identity middleware): every option
+	/// set before it must survive
+	pub mw_last: bool,
 }
 
 impl Default for ClientCfg {
 	fn default() -> Self {
-		ClientCfg { id_kind: IdK::Number, max_concurrent_requests: 256, sub_buffer: 1024, ping: false }
+		ClientCfg { id_kind: IdK::Number, max_concurrent_requests: 256, sub_buffer: 1024, ping: false, mw_last: false }
 	}
 }
 
@@ -235,14 +238,14 @@ impl MockClient {
 		if cfg.ping {
 			builder = builder.enable_ws_ping(jsonrpsee_core::client::async_client::PingConfig::new().ping_interval(std::time::Duration::from_secs(100)).inactive_limit(std::time::Duration::from_secs(1_000_000_000)).max_failures(1000));
 		}
-		let client = builder
+		let builder = builder
 			.id_format(match cfg.id_kind {
 				IdK::Number => IdKind::Number,
 				IdK::String => IdKind::String,
 			})
 			.max_concurrent_requests(cfg.max_concurrent_requests)
-			.max_buffer_capacity_per_subscription(cfg.sub_buffer.max(1))
-			.build_with_tokio(sender, receiver);
+			.max_buffer_capacity_per_subscription(cfg.sub_buffer.max(1));
+		let client = if cfg.mw_last { builder.set_rpc_middleware(jsonrpsee_core::middleware::RpcServiceBuilder::new().rpc_logger(1024)).build_with_tokio(sender, receiver) } else { builder.build_with_tokio(sender, receiver) };
 		MockClient { client: Arc::new(client), shared, to_client: tx, wire_seen: 0 }
 	}
 
